@@ -194,30 +194,90 @@ func samGroupValue(c *core.Ctx, recs []samRec, idx int64) *eval.StructVal {
 
 // evalMultiAlignRow interprets blockToFastaRecord for one group.
 func evalMultiAlignRow(c *core.Ctx, recs []samRec, refLen int, pad bool, trim bool, s, e int) (seq string, id string, idx int64, err error) {
+	rows, err := evalMultiAlignBatch(c, [][]samRec{recs}, []int64{7}, refLen, pad, trim, s, e)
+	if err != nil {
+		return "", "", 0, err
+	}
+	return rows[0].seq, rows[0].id, rows[0].idx, nil
+}
+
+type rowOut struct {
+	seq, id string
+	idx     int64
+}
+
+// evalMultiAlignBatch feeds the groups through ONE activation of blockToFastaRecord (one pool worker) and reads the
+// emitted rows after the whole batch.
+func evalMultiAlignBatch(c *core.Ctx, groups [][]samRec, idxs []int64, refLen int, pad bool, trim bool, s, e int) ([]rowOut, error) {
 	fn := c.LookupFunc("pkg/sam", "blockToFastaRecord")
 	if fn == nil {
-		return "", "", 0, fmt.Errorf("UNRESOLVED sam.blockToFastaRecord")
+		return nil, fmt.Errorf("UNRESOLVED sam.blockToFastaRecord")
 	}
 	ev := newEval(c)
 	installBiogo(ev)
 	out := &eval.ChanVal{Name: "out"}
 	errs := &eval.ChanVal{Name: "err"}
-	_, e2 := ev.CallFunc(fn, &eval.ChanVal{Name: "in", Feed: []eval.Value{samGroupValue(c, recs, 7)}}, out, errs,
+	var feed []eval.Value
+	for i, g := range groups {
+		feed = append(feed, samGroupValue(c, g, idxs[i]))
+	}
+	_, e2 := ev.CallFunc(fn, &eval.ChanVal{Name: "in", Feed: feed}, out, errs,
 		eval.K(int64(refLen)), trim, pad, eval.K(int64(s)), eval.K(int64(e)), false)
 	if e2 != nil {
-		return "", "", 0, e2
+		return nil, e2
 	}
-	if len(errs.Sent) > 0 || len(out.Sent) != 1 {
-		return "", "", 0, fmt.Errorf("%d errors, %d rows", len(errs.Sent), len(out.Sent))
+	if len(errs.Sent) > 0 || len(out.Sent) != len(groups) {
+		return nil, fmt.Errorf("%d errors, %d rows for %d queries", len(errs.Sent), len(out.Sent), len(groups))
 	}
-	rec := out.Sent[0].(*eval.StructVal)
-	sq, ok := bytesStr(rec.F["Seq"])
-	if !ok {
-		return "", "", 0, fmt.Errorf("non-constant row")
+	var res []rowOut
+	for _, v := range out.Sent {
+		rec, ok := v.(*eval.StructVal)
+		if !ok {
+			return nil, fmt.Errorf("unexpected item %s", eval.Show(v))
+		}
+		sq, ok := bytesStr(rec.F["Seq"])
+		if !ok {
+			return nil, fmt.Errorf("non-constant row")
+		}
+		idS, _ := rec.F["ID"].(eval.Str)
+		ix, _ := linConst(rec.F["Idx"])
+		res = append(res, rowOut{sq, idS.Const(), ix})
 	}
-	idS, _ := rec.F["ID"].(eval.Str)
-	ix, _ := linConst(rec.F["Idx"])
-	return sq, idS.Const(), ix, nil
+	return res, nil
+}
+
+// c01WorkerBatches: the row the multi-alignment worker emits for a query does not depend on the queries it handled before.
+func c01WorkerBatches(c *core.Ctx, rule string) {
+	ref := "ACGTTGA"
+	pos := funcPos(c, "pkg/sam", "blockToFastaRecord")
+	var bad []string
+	for _, mode := range []struct {
+		pad, trim bool
+		s, e      int
+	}{{false, false, 0, 0}, {true, false, 0, 0}, {false, true, 1, 6}, {true, true, 1, 6}} {
+		for _, batch := range samWorkerBatches(ref) {
+			idxs := make([]int64, len(batch))
+			for i := range idxs {
+				idxs[i] = int64(i)
+			}
+			got, err := evalMultiAlignBatch(c, batch, idxs, len(ref), mode.pad, mode.trim, mode.s, mode.e)
+			if err != nil {
+				c.Und(rule+"/no-state-between-queries", pos, "cannot evaluate a batch: %v", err)
+				return
+			}
+			for i, g := range batch {
+				alone, err := evalMultiAlignBatch(c, [][]samRec{g}, []int64{int64(i)}, len(ref), mode.pad, mode.trim, mode.s, mode.e)
+				if err != nil {
+					c.Und(rule+"/no-state-between-queries", pos, "cannot evaluate %s: %v", recString(g), err)
+					return
+				}
+				if got[i] != alone[0] {
+					bad = append(bad, fmt.Sprintf("query %s as item %d of a batch through one worker (pad=%v trim=%v) gives %q; handled alone it gives %q", recString(g), i, mode.pad, mode.trim, got[i].seq, alone[0].seq))
+				}
+			}
+		}
+	}
+	c.Ob(rule+"/no-state-between-queries", len(bad) == 0, pos, "%s", first(bad, 2))
 }
 
 func C01(c *core.Ctx) {
@@ -280,6 +340,7 @@ func C01(c *core.Ctx) {
 		}
 	}
 	c.Count("record_groups_evaluated", n)
+	c01WorkerBatches(c, "R2/blockToFastaRecord")
 	c.Ob("R2/blockToFastaRecord/projection-onto-reference", len(bad) == 0, funcPos(c, "pkg/sam", "blockToFastaRecord"), "%s", first(bad, 4))
 	c.Sample(map[string]string{"rule": "R2", "group": "q@2:2M1I1M:ACGT", "reference_length": "7", "row": "-AC T-- (insertion dropped)"})
 	// ---- R4 flags, grouping, index
